@@ -33,7 +33,7 @@ static int menu_n[MAXP];
 static struct opdef script_ops[MAXP][MAXSCRIPT];
 static int script_n[MAXP];
 static int cfg_budget[MAXP];
-static int cfg_preload, cfg_chain, cfg_prune;
+static int cfg_preload, cfg_chain, cfg_prune, cfg_cycle;
 static uint64_t cfg_maxevents;
 static int64_t cfg_x0;
 
@@ -175,6 +175,7 @@ static void configure(void)
     cfg_preload = (int)vx_opt_int("preload", 0);
     cfg_chain = !strcmp(vx_opt("start", "all"), "chain");
     cfg_prune = (int)vx_opt_int("prune", 0);
+    cfg_cycle = (int)vx_opt_int("cycle", 0); /* scripts repeat until the budget is used up, without choice points */
     cfg_maxevents = (uint64_t)vx_opt_int("maxevents", 400);
     cfg_x0 = vx_opt_int("x0", 0);
     for (int p = 0; p < D.P; p++) {
@@ -972,6 +973,17 @@ static void *proc_body(struct cmb_process *me, void *ctx)
         const struct opdef *menu[MAXMENU + 1];
         int nm = 0;
         const struct opdef *first = NULL;
+        if (cfg_cycle && script_n[p] > 0) {
+            /* long deterministic runs (container growth thresholds): the script repeats, nothing is chosen */
+            const struct opdef *od = &script_ops[p][D.step[p] % script_n[p]];
+            if (!enabled(p, od)) {
+                break;
+            }
+            D.budget[p]--;
+            D.step[p]++;
+            (void)do_op(p, od);
+            continue;
+        }
         if (D.incarnation[p] == 1 && D.step[p] < script_n[p] && enabled(p, &script_ops[p][D.step[p]])) {
             first = &script_ops[p][D.step[p]];
             menu[nm++] = first;
@@ -1029,6 +1041,80 @@ static void reset_pools(void)
     }
 }
 
+/* Every execution gives its objects a short first life (each is used and left non-empty: a resource and pool
+ * units held by a process that ends, a unit in the buffer, an object in each queue), terminates them and the
+ * event queue, and initializes the same objects again for the execution proper - what a program does that
+ * reuses its objects for the next trial. Right after that every object must look empty through its public
+ * queries. (Deterministic: the first life is the same in every execution.) */
+static bool reused;
+static struct cmb_process warm_proc;
+
+static void *warm_body(struct cmb_process *me, void *ctx)
+{
+    (void)me;
+    (void)ctx;
+    uint64_t am = 1, h = 0;
+    if (D.nres > 0) {
+        cmb_resource_acquire(&D.res[0]);
+    }
+    if (D.has_pool) {
+        cmb_resourcepool_acquire(&D.pool, 1);
+    }
+    if (D.has_buf) {
+        cmb_buffer_put(&D.buf, &am);
+    }
+    if (D.has_oq) {
+        cmb_objectqueue_put(&D.oq, (void *)0x31);
+    }
+    if (D.has_pq) {
+        cmb_priorityqueue_put(&D.pq, (void *)0x32, 1, &h);
+    }
+    cmb_process_hold(1.0);
+    return NULL;
+}
+
+static void terminate_objects(bool raw);
+
+static void check_fresh_objects(void)
+{
+    for (int r = 0; r < D.nres; r++) {
+        if (cmb_resource_in_use(&D.res[r]) != 0 || cmb_resource_available(&D.res[r]) != 1
+            || des_guard_count(&D.res[r].guard) != 0) {
+            VFAIL("reinitialize:resource-not-free", "a re-initialized resource reports in use %" PRIu64 ", available %" PRIu64,
+                  (uint64_t)cmb_resource_in_use(&D.res[r]), (uint64_t)cmb_resource_available(&D.res[r]));
+            return;
+        }
+    }
+    if (D.has_pool && (cmb_resourcepool_in_use(&D.pool) != 0 || cmb_resourcepool_available(&D.pool) != D.pool_cap
+                       || des_guard_count(&D.pool.guard) != 0)) {
+        VFAIL("reinitialize:pool-not-empty", "a re-initialized pool of %" PRIu64 " reports in use %" PRIu64 ", available %" PRIu64,
+              D.pool_cap, cmb_resourcepool_in_use(&D.pool), cmb_resourcepool_available(&D.pool));
+        return;
+    }
+    if (D.has_buf && (cmb_buffer_level(&D.buf) != 0 || cmb_buffer_space(&D.buf) != D.buf_cap
+                      || des_guard_count(&D.buf.front_guard) != 0 || des_guard_count(&D.buf.rear_guard) != 0)) {
+        VFAIL("reinitialize:buffer-not-empty", "a re-initialized buffer of capacity %" PRIu64 " reports level %" PRIu64
+              ", space %" PRIu64, D.buf_cap, cmb_buffer_level(&D.buf), cmb_buffer_space(&D.buf));
+        return;
+    }
+    if (D.has_oq && (cmb_objectqueue_length(&D.oq) != 0 || des_guard_count(&D.oq.front_guard) != 0
+                     || des_guard_count(&D.oq.rear_guard) != 0)) {
+        VFAIL("reinitialize:objectqueue-not-empty", "a re-initialized object queue reports length %" PRIu64,
+              cmb_objectqueue_length(&D.oq));
+        return;
+    }
+    if (D.has_pq && (cmb_priorityqueue_length(&D.pq) != 0 || des_guard_count(&D.pq.front_guard) != 0
+                     || des_guard_count(&D.pq.rear_guard) != 0)) {
+        VFAIL("reinitialize:priorityqueue-not-empty", "a re-initialized priority queue reports length %" PRIu64,
+              cmb_priorityqueue_length(&D.pq));
+        return;
+    }
+    if (D.has_cond && des_guard_count(&D.cond.guard) != 0) {
+        VFAIL("reinitialize:condition-not-empty", "a re-initialized condition has waiters");
+        return;
+    }
+}
+
 static void run_one(void)
 {
     const int P = D.P;
@@ -1064,27 +1150,27 @@ static void run_one(void)
 
     cmb_event_queue_initialize(0.0);
     for (int r = 0; r < D.nres; r++) {
-        memset(&D.res[r], 0, sizeof D.res[r]);
+        if (!reused) { memset(&D.res[r], 0, sizeof D.res[r]); }
         cmb_resource_initialize(&D.res[r], r ? "R1" : "R0");
     }
     if (D.has_pool) {
-        memset(&D.pool, 0, sizeof D.pool);
+        if (!reused) { memset(&D.pool, 0, sizeof D.pool); }
         cmb_resourcepool_initialize(&D.pool, "POOL", D.pool_cap);
     }
     if (D.has_buf) {
-        memset(&D.buf, 0, sizeof D.buf);
+        if (!reused) { memset(&D.buf, 0, sizeof D.buf); }
         cmb_buffer_initialize(&D.buf, "BUF", D.buf_cap);
     }
     if (D.has_oq) {
-        memset(&D.oq, 0, sizeof D.oq);
+        if (!reused) { memset(&D.oq, 0, sizeof D.oq); }
         cmb_objectqueue_initialize(&D.oq, "OQ", D.oq_cap);
     }
     if (D.has_pq) {
-        memset(&D.pq, 0, sizeof D.pq);
+        if (!reused) { memset(&D.pq, 0, sizeof D.pq); }
         cmb_priorityqueue_initialize(&D.pq, "PQ", D.pq_cap);
     }
     if (D.has_cond) {
-        memset(&D.cond, 0, sizeof D.cond);
+        if (!reused) { memset(&D.cond, 0, sizeof D.cond); }
         cmb_condition_initialize(&D.cond, "COND");
         const char *sub = vx_opt("subscribe", "");
         D.sub_res = 0;
@@ -1101,6 +1187,24 @@ static void run_one(void)
             cmb_condition_subscribe(&D.cond, &D.res[0].guard);
             D.sub_res = 2;
         }
+    }
+    if (!reused && vx_opt_int("reuse", 1)) {
+        /* first life */
+        memset(&warm_proc, 0, sizeof warm_proc);
+        cmb_process_initialize(&warm_proc, "W", warm_body, NULL, 0);
+        cmb_process_start(&warm_proc);
+        while (cmb_event_execute_next()) {
+        }
+        cmb_process_terminate(&warm_proc);
+        terminate_objects(false);
+        cmb_event_queue_terminate();
+        reused = true;
+        run_one();
+        reused = false;
+        return;
+    }
+    if (reused) {
+        check_fresh_objects();
     }
     for (int p = 0; p < P; p++) {
         char nm[8];
@@ -1171,8 +1275,19 @@ static void run_one(void)
             D.procs[p].core.stack = NULL;
         }
     }
+    terminate_objects(true);
+    cmb_event_queue_terminate();
+    reset_pools();
+}
+
+/* raw: the execution may have been abandoned half-way; fields are cleared by hand so that no library clean-up
+ * code runs on processes that no longer exist. Not raw (end of the first life): the library's own terminate. */
+static void terminate_objects(bool raw)
+{
     for (int r = 0; r < D.nres; r++) {
-        D.res[r].holder = NULL;
+        if (raw) {
+            D.res[r].holder = NULL;
+        }
         cmb_resource_terminate(&D.res[r]);
     }
     if (D.has_pool) {
@@ -1182,7 +1297,9 @@ static void run_one(void)
         cmb_buffer_terminate(&D.buf);
     }
     if (D.has_oq) {
-        D.oq.queue_head = NULL; /* tags go back with the pool reset */
+        if (raw) {
+            D.oq.queue_head = NULL; /* tags go back with the pool reset */
+        }
         cmb_objectqueue_terminate(&D.oq);
     }
     if (D.has_pq) {
@@ -1191,8 +1308,6 @@ static void run_one(void)
     if (D.has_cond) {
         cmb_condition_terminate(&D.cond);
     }
-    cmb_event_queue_terminate();
-    reset_pools();
 }
 
 static void ginit(void)
